@@ -42,19 +42,42 @@ def to_py(v):
     return ("other", type(v).__name__)
 
 
-def outcome(fn):
-    """Run fn(); classify: ('val', value) | ('err', error value) |
-    ('syntax', msg) | ('host', exception class name, text)."""
+class _Watchdog(Exception):
+    pass
+
+
+def _wd(signum, frame):
+    raise _Watchdog()
+
+
+def outcome(fn, limit=20):
+    """Run fn(); classify: ('val', value) | ('err', error value, exc) |
+    ('syntax', msg, exc) | ('host', exception class name, text).  A call that
+    does not return within `limit` seconds is ('host', 'Timeout', ..) - unless
+    the caller already runs its own alarm (then that one stays in charge)."""
+    import signal
+    import threading
+    own = (threading.current_thread() is threading.main_thread()
+           and signal.getitimer(signal.ITIMER_REAL)[0] == 0)
+    if own:
+        old = signal.signal(signal.SIGALRM, _wd)
+        signal.alarm(limit)
     try:
         return ("val", fn())
     except CklRuntimeError as e:
         return ("err", e.value, e)
     except CklSyntaxError as e:
         return ("syntax", e.msg, e)
-    except RecursionError as e:
+    except _Watchdog:
+        return ("host", "Timeout", f"no result within {limit} s")
+    except RecursionError:
         return ("host", "RecursionError", "")
     except Exception as e:  # noqa: BLE001 - the point is to see what escapes
         return ("host", type(e).__name__, str(e)[:120])
+    finally:
+        if own:
+            signal.alarm(0)
+            signal.signal(signal.SIGALRM, old)
 
 
 def lit(x):
